@@ -392,6 +392,10 @@ impl Check for C12 {
             "equality of decoded values uses the types' own PartialEq".into(),
         ]
     }
+    fn hang_cpu_budget(&self, _tier: Tier) -> Option<std::time::Duration> {
+        // a case of this check is a few milliseconds of computation; one that has burnt two minutes of CPU time is not coming back
+        Some(std::time::Duration::from_secs(120))
+    }
     fn cases(&self, tier: Tier) -> u64 {
         tier.pick(3_200, 30_000)
     }
